@@ -131,6 +131,9 @@ type Loop struct {
 	RangeOver *ir.Term
 	// indexForm: the element index of the current iteration is the phi itself (index loop), not phi+1 (range)
 	indexForm bool
+	// tailForm: `for rest := xs; len(rest) > 0; rest = rest[1:]` - the phi is the remaining slice, the current element
+	// is rest[0]; there is no index
+	tailForm bool
 }
 
 // Rotated: the loop is bottom-tested (the body runs before the bound test; exit paths carry a full iteration).
@@ -139,6 +142,9 @@ func (l *Loop) Rotated() bool { return l.Op == "rot<" }
 // Index returns the term of the current element's index inside an iteration of a slice loop.
 func (l *Loop) Index(an *ir.Analysis) *ir.Term {
 	sym := an.Start[l.Header].Reg(l.Phi)
+	if l.tailForm {
+		return &ir.Term{Op: "noindex"}
+	}
 	if l.indexForm {
 		return sym
 	}
@@ -147,6 +153,9 @@ func (l *Loop) Index(an *ir.Analysis) *ir.Term {
 
 // Elem returns the canonical term of the current element of a slice loop.
 func (l *Loop) Elem(an *ir.Analysis) *ir.Term {
+	if l.tailForm {
+		return &ir.Term{Op: "load", Aux: "0", Args: []*ir.Term{{Op: "iaddr", Args: []*ir.Term{an.Start[l.Header].Reg(l.Phi), ir.Const("0")}}}}
+	}
 	return &ir.Term{Op: "load", Aux: "0", Args: []*ir.Term{{Op: "iaddr", Args: []*ir.Term{l.RangeOver, l.Index(an)}}}}
 }
 
@@ -154,6 +163,9 @@ func (l *Loop) Elem(an *ir.Analysis) *ir.Term {
 func (l *Loop) IsElem(an *ir.Analysis, t *ir.Term) bool {
 	if t == nil {
 		return false
+	}
+	if l.tailForm {
+		return ir.Same(t, l.Elem(an)) || ir.Same(t, &ir.Term{Op: "index", Args: []*ir.Term{an.Start[l.Header].Reg(l.Phi), ir.Const("0")}})
 	}
 	return ir.Same(t, l.Elem(an)) || ir.Same(t, &ir.Term{Op: "index", Args: []*ir.Term{l.RangeOver, l.Index(an)}})
 }
@@ -310,6 +322,47 @@ func countedLoop(an *ir.Analysis, h *ssa.BasicBlock) *Loop {
 			}
 		}
 		return l
+	}
+	// head/tail form over a slice
+	for _, in := range h.Instrs {
+		phi, ok := in.(*ssa.Phi)
+		if !ok {
+			break
+		}
+		if _, isSl := phi.Type().Underlying().(*types.Slice); !isSl {
+			continue
+		}
+		sym := start.Reg(phi)
+		lb := ir.LoopBlocks(h)
+		var over *ir.Term
+		good, nBack := true, 0
+		for _, ps := range an.Segs {
+			for _, p := range ps {
+				if p.To != h {
+					continue
+				}
+				v := p.PhiOut[phi]
+				if p.From == nil || !lb[p.From] {
+					if over != nil && !ir.Same(over, v) {
+						good = false
+					}
+					over = v
+					continue
+				}
+				nBack++
+				// rest = rest[1:]
+				if !(v != nil && v.Op == "slice" && len(v.Args) == 4 && ir.Same(v.Args[0], sym) && v.Args[1].Aux == "1" && v.Args[2].Aux == "_" && v.Args[3].Aux == "_") {
+					good = false
+				}
+				// taken only while len(rest) > 0
+				if polarity(p, &ir.Term{Op: "bin", Aux: "<", Args: []*ir.Term{ir.Const("0"), {Op: "len", Args: []*ir.Term{sym}}}}) <= 0 {
+					good = false
+				}
+			}
+		}
+		if good && nBack > 0 && over != nil {
+			return &Loop{Header: h, Phi: phi, Start: ir.Const("0"), Step: 1, Op: "tail", Bound: &ir.Term{Op: "len", Args: []*ir.Term{over}}, Trip: &ir.Term{Op: "len", Args: []*ir.Term{over}}, RangeOver: over, tailForm: true}
+		}
 	}
 	return nil
 }
